@@ -6,6 +6,7 @@ pub fn str_symbols() -> Vec<&'static str> {
     vec![
         "a", "b", " ", "\n", "\r", "\t", "\u{a0}", "\u{2028}", "\u{e9}", "\u{301}", "\0", "\u{18}",
         "\u{85}", "\u{3000}", "x\u{301}", "\u{1F469}\u{200D}\u{1F4BB}", "\u{1F1E6}\u{1F1F9}", "\r\n", "ab", ".",
+        "\u{feff}", "\u{b}", "\u{c}", "\u{1680}", "\u{202f}", "\u{200b}", "\u{2029}",
     ]
 }
 
